@@ -4,6 +4,24 @@
 #include <errno.h>
 #include "envstubs.h"
 #include <arpa/inet.h>
+#if T == 11 && !defined(REPLAY)
+/* memchr model for the sparse size_detect shape (CBMC only; the replay uses glibc's memchr).  Same contract as memchr
+ * (first occurrence of c in s[0..n), NULL otherwise; the range must lie inside the buffer, asserted), but written as a
+ * scan over the CONCRETE indices of the one buffer under test, so that the concrete zero bytes fold away during
+ * symbolic execution and only the symbolic bytes branch.  c13_buf is set by the harness. */
+static const unsigned char *c13_buf;
+static void *c13_memchr(const void *s, int c, size_t n) {
+	const unsigned char *p = (const unsigned char *)s;
+	__CPROVER_assert(p >= c13_buf && (size_t)(p - c13_buf) <= LEN && n <= LEN - (size_t)(p - c13_buf),
+	    "PROP memchr range lies inside the buffer");
+	size_t off = (size_t)(p - c13_buf);
+	for (size_t i = 0; i < LEN; i++) {
+		if (i >= off && i - off < n && c13_buf[i] == (unsigned char)c) return ((void *)(c13_buf + i));
+	}
+	return (NULL);
+}
+#define memchr c13_memchr
+#endif
 #include "utils/macro.h"
 #include "proto/sdp.h"
 #include "proto/sap.h"
@@ -15,8 +33,21 @@
 #define NF 3
 #endif
 
+#if T == 11	/* sparse shape: see below */
+#define NCL (sizeof(cl_pos) / sizeof(cl_pos[0]))
+static const size_t cl_pos[] = { CL_POS };
+#ifndef CLW
+#define CLW 6
+#endif
+#endif
+
 struct in_s {
+#if T == 11
+	uint8_t c[sizeof(cl_pos) / sizeof(cl_pos[0])][CLW];
+	uint8_t d[1];
+#else
 	uint8_t d[LEN ? LEN : 1];
+#endif
 	size_t off;
 	size_t line;
 	uint8_t type;
@@ -27,7 +58,22 @@ struct in_s {
 
 void harness(void) {
 	V_BEGIN();
+#if T == 11
+	/* mpeg2_ts_pkt_size_detect on an exactly sized heap buffer of LEN bytes: all bytes zero (never a sync byte) except
+	 * CLW = 6 fully symbolic bytes at each concrete candidate position CL_POS: sync byte, TEI/PUSI/PID-hi, PID-lo,
+	 * scrambling/adaptation-control/cc, adaptation_field_length (or table id), byte 5 (PSI flags of a payload-only
+	 * packet).  Each of them may itself be 0x47, so up to 6 candidates per cluster. */
+	uint8_t *m = (uint8_t *)v_alloc(LEN);
+	memset(m, 0, LEN);
+	for (size_t k = 0; k < NCL; k++) {
+		for (size_t b = 0; b < CLW; b++) m[cl_pos[k] + b] = IN.c[k][b];
+	}
+#ifndef REPLAY
+	c13_buf = m;
+#endif
+#else
 	uint8_t *m = v_buf(IN.d, LEN);
+#endif
 	int r;
 	(void)r;
 
@@ -136,6 +182,17 @@ void harness(void) {
 	r = mpeg2_ts_pkt_size_detect(m, LEN, &ps);
 	if (r == 0) {
 		V_ASSERT(ps == 188 || ps == 192 || ps == 204 || ps == 208, "one of the four sizes");
+		V_WITNESS("detected");
+	} else {
+		V_ASSERT(r == EINVAL, "EINVAL");
+		V_WITNESS("not detected");
+	}
+#elif T == 11	/* mpeg2_ts_pkt_size_detect, sparse symbolic buffer */
+	size_t ps = 0;
+	r = mpeg2_ts_pkt_size_detect(m, LEN, &ps);
+	if (r == 0) {
+		V_ASSERT(ps == 188 || ps == 192 || ps == 204 || ps == 208, "one of the four sizes");
+		if (ps != 208) V_WITNESS("size other than the default detected");
 		V_WITNESS("detected");
 	} else {
 		V_ASSERT(r == EINVAL, "EINVAL");
